@@ -579,7 +579,17 @@ class WriterExtractor:
             t = self.r.strip_opt(self.r.type_of(recv, fi))
             if t[0] == "inst":
                 target_obj = (env[recv.id][1] + "[]", t[1], True)
+        if target_obj is None and isinstance(recv, ast.Call) and isinstance(recv.func, ast.Name) and recv.func.id == "super" and wargs and fi.cls is not None:
+            # super().m(writer, ...): the next definition of m after the current class in the concrete class's MRO, same object
+            nxt = self.m.find_method(cls_q, f.attr, after=fi.cls)
+            selfname = next((k for k, v in env.items() if v and v[0] == "self"), None)
+            if nxt is not None and selfname is not None:
+                self.grammar_into_fi(nxt, env[selfname][1], wargs, env, cls_q)
+                return None
         if target_obj is None:
+            if wargs:
+                # a writer handed to something that is not followed: what it writes is not in the grammar
+                raise AnalysisError(f"{fi.qualname}:{c.lineno}: the writer is handed to `{norm(c.func)[:40]}`, which the extractor does not follow")
             return None
         path, tcls, is_elem = target_obj
         if isinstance(recv, ast.Name) and env[recv.id][0] == "self" and self.m.find_method(cls_q, f.attr) is not None:
@@ -662,6 +672,9 @@ class WriterExtractor:
         fi = self.m.find_method(cls_q, method)
         if fi is None:
             raise AnalysisError(f"{cls_q}.{method} not found")
+        return self.grammar_into_fi(fi, self_path, wargs, env, cls_q)
+
+    def grammar_into_fi(self, fi: FuncInfo, self_path: str, wargs: List[ast.Name], env: Dict[str, Any], cls_q: str):
         env2: Dict[str, Any] = {}
         params = fi.params()
         env2[params[0]] = ("self", self_path, cls_q)
